@@ -21,12 +21,12 @@ CHECKS = {
         technique="Coq proof (induction on stream length, append-compositionality of decode) + extracted-model differential correspondence"),
 
     "C03": dict(
-        text=("27 theorems over every well-formed plan and every packet (Props/C03.v): the code's sort key is the property's "
+        text=("31 theorems over every well-formed plan and every packet (Props/C03.v): the code's sort key is the property's "
               "specificity order; first match in the descending list (last match ascending for pf) is a matching entry of maximal key; "
               "for nat, nft, tproxy and both pf rule shapes the modelled packet walk over the generated rules diverts TCP exactly when "
               "the most specific matching entry is an include (and the owner matches where implemented), DNS exactly for the configured "
               "name servers, other UDP only under tproxy+udp. Tied to /repo by comparing the argv / pf text the real setup_firewall emits "
-              "token for token with the model's printer and by walking sampled packets over the rules the real code emitted. Set-up over the session's own objects left by a killed earlier session with another plan yields the same verdicts as on a clean packet filter (c03_nft_stale_own_objects, c03_ipt_own_chains_emptied); the harness runs both sessions' real set-ups (the first cut after k commands) on the C04 kernel model and judges the later plan's oracle on the resulting state."),
+              "token for token with the model's printer and by walking sampled packets over the rules the real code emitted. Set-up over the session's own objects left by a killed earlier session with another plan yields the same verdicts as on a clean packet filter (c03_nft_stale_own_objects, c03_ipt_own_chains_emptied); the harness runs both sessions' real set-ups (the first cut after k commands) on the C04 kernel model and judges the later plan's oracle on the resulting state. For pf the verdict is judged on the COMPLETE state (Model/FwPfHook.v: main-ruleset anchor calls and enable state; c03_pf_state_tcp, c03_pf_state_no_filter_call, c03_pf_state_disabled)."),
         note="modelled not verified: the kernel's iptables/nft/pf matching semantics (validated against real netfilter in a namespace in the thorough tier; pf cannot be validated here). Known finding F18 excluded exactly by c03_tproxy_dns_partial; known finding F140 (nat owner MARK rule of a killed session with another owner) is outside the per-plan theorems and reported by the stale-objects dimension.",
         design="DESIGN.md §5 C03",
         technique="Coq proof (sorting + first-match lemmas, per-method walk theorems) + rule-text correspondence + packet-walk oracle on emitted rules"),
@@ -146,7 +146,7 @@ CHECKS = {
         technique="Coq proof (bit arithmetic via div/mod, recognisers, totality of the line scanner) + differential correspondence with an ipaddress oracle"),
 
     "C18": dict(
-        text=("14 theorems (Props/C18.v) with zlib abstract (only the sync-flush law is assumed, as an explicit premise): for every list of module "
+        text=("16 theorems (Props/C18.v; incl. c18_connected_iff_announced: the client goes on exactly when ssh is alive and the 12 bytes after the second NUL are the announcement, for every stream and cutting) with zlib abstract (only the sync-flush law is assumed, as an explicit premise): for every list of module "
               "sources of any size incl. empty (with the `if not data` fallback), every assembler text and EVERY segmentation of the upload the "
               "bootstrap one-liner reads exactly the assembler, the registered modules equal the packaged ones in order and byte for byte and the "
               "loop stops at the final blank name; the options module evaluates to the client's values; nothing but the two uploads is written "
